@@ -57,18 +57,27 @@ def gen_case(rng: random.Random):
                 noise_seed=rng.randrange(1 << 20), noise=rng.choice([0.0, 0.005, 0.01]), profile=rng.choice(["current", "current", "legacy"]))
 
 
-def fit_and_measure(case):
+def fit_and_measure(case, _model=None):
+    """fit the case's building with the real DailyModel and measure the recovery.  `case["history"]`: buildings fitted and
+    predicted with the SAME model object before this one (a portfolio loop re-using one object); `case["unit_scale"]`: the
+    meter's unit (usage multiplied by a constant — the property is about usage relative to its mean)"""
     from opendsm.eemeter.models.daily.model import DailyModel
     from opendsm.eemeter.models.daily.data import DailyBaselineData, DailyReportingData
     p = case["params"]
     T1 = weather(case["year"], case["tz"], case["weather_seed"], **case["weather"])
     T2 = weather(case["year"] + 1, case["tz"], case["weather_seed"] + 1, **case["weather"])
-    g1, g2 = generator(T1.values, p), generator(T2.values, p)
+    us = float(case.get("unit_scale", 1.0))
+    g1, g2 = generator(T1.values, p) * us, generator(T2.values, p) * us
     eps = np.random.default_rng(case["noise_seed"]).uniform(-1, 1, len(g1)) * case["noise"]
     obs = g1 * (1 + eps)
     with contextlib.redirect_stdout(io.StringIO()), contextlib.redirect_stderr(io.StringIO()):
         base = DailyBaselineData(pd.DataFrame({"temperature": T1, "observed": obs}), is_electricity_data=True)
-        m = (DailyModel(model="legacy") if case["profile"] == "legacy" else DailyModel()).fit(base, ignore_disqualification=True)
+        m0 = _model
+        if m0 is None:
+            m0 = DailyModel(model="legacy") if case["profile"] == "legacy" else DailyModel()
+            for h in case.get("history", []):
+                fit_and_measure(dict(h, profile=case["profile"]), _model=m0)
+        m = m0.fit(base, ignore_disqualification=True)
         p1 = m.predict(base, ignore_disqualification=True)
         p2 = m.predict(DailyReportingData(pd.DataFrame({"temperature": T2}), is_electricity_data=True), ignore_disqualification=True)
     out = dict(model_types={str(k): v.coefficients.model_type.value for k, v in m.params.submodels.items()})
@@ -109,6 +118,11 @@ def fit_and_measure(case):
 def explain(case, r):
     """C15-F1: the chosen split has a component in which a true, active balance point lies outside the optimiser's box (fewer than
     segment_minimum_count days of that component lie beyond it) — that component cannot represent the generator."""
+    # C15-F3: the elastic-net penalty of the objective is dimensionless while the loss carries the meter's unit squared, so for
+    # a meter in small units (mean daily usage well below 1) the penalty dominates and every slope is shrunk to zero.
+    # Recognised from the INPUT alone: the generating curve's mean daily usage is below 1 unit.
+    if float(case.get("unit_scale", 1.0)) * float(case["params"]["base"]) < 1.0:
+        return "C15-F3"
     if any(c["true_balance_point_outside_box"] for c in r.get("components", [])):
         return "C15-F1"
     return None
@@ -213,6 +227,19 @@ def run(ctx):
             if case["shape"] == shapes_cycle[i % 4]:
                 break
         todo.append(case)
+    # a portfolio loop: one model object fits and predicts another building first (its true curve is a different regime)
+    for j, case in enumerate(list(todo[-min(len(todo), 3):])):
+        other = dict(case, params=dict(case["params"], base=round(case["params"]["base"] * 2.5 + 3, 3),
+                                       hb_slope=case["params"]["cb_slope"], cb_slope=case["params"]["hb_slope"]),
+                     shape={"heating": "cooling", "cooling": "heating"}.get(case["shape"], case["shape"]))
+        if case["shape"] == "flat":
+            other = dict(other, shape="both", params=dict(other["params"], hb_slope=1.1, cb_slope=0.9))
+        todo.append(dict(case, history=[{k: v for k, v in other.items() if k != "history"}]))
+    # the same building metered in other units (MWh instead of kWh ...): recovery is relative to mean usage
+    if todo:
+        b = next((c for c in todo if c["shape"] == "both" and not c.get("history")), todo[0])
+        for us in ((1e-3, 1e3) if not thorough else (1e-4, 1e-3, 1e-2, 1e2, 1e3, 1e5)):
+            todo.append(dict({k: v for k, v in b.items() if k != "history"}, unit_scale=us))
     for case in todo:
         try:
             r = fit_and_measure(case)
